@@ -71,13 +71,17 @@ def install(engine):
 # cardinality helper: facts tying set_card(S) to emptiness / singleton-ness
 # ------------------------------------------------------------------------------------------------
 def card_facts(s):
-    x, y = S.fresh("cx", V), S.fresh("cy", V)
     c = set_card(s)
-    return [
-        c >= 0,
-        (c == 0) == Not(z3.Exists([x], s[x])),
-        (c <= 1) == z3.ForAll([x, y], z3.Implies(And(s[x], s[y]), x == y)),
-    ]
+    ps = S.pair_set_body(s)
+    if ps is not None:
+        a, b, body = ps
+        a2, b2 = S.fresh("ca", V), S.fresh("cb", V)
+        body2 = z3.substitute(body, (a, a2), (b, b2))
+        atmost1 = z3.ForAll([a, b, a2, b2], z3.Implies(And(body, body2), And(a == a2, b == b2)))
+    else:
+        x, y = S.fresh("cx", V), S.fresh("cy", V)
+        atmost1 = z3.ForAll([x, y], z3.Implies(And(s[x], s[y]), x == y))
+    return [c >= 0, (c == 0) == Not(S.set_nonempty(s)), (c <= 1) == atmost1]
 
 
 def set_list_facts(s, n, arr, pos):
@@ -224,6 +228,9 @@ def contains(engine, st, c, x):
     elif k == "dict":
         st, bx = engine.boxed(st, x)
         yield st, c.t[0][bx]
+    elif k == "list" and c.origin is not None and c.origin[0] == "set":
+        st, bx = engine.boxed(st, x)
+        yield st, c.origin[1][bx]  # the list enumerates exactly this set
     elif k == "list":
         st, bx = engine.boxed(st, x)
         i = S.fresh("i", S.Int)
@@ -530,6 +537,33 @@ def load_obj_attr(engine, st, o, cname, attr, node):
             return
         raise OutsideSubset(f"attribute {attr} on opaque class {cname}")
     fi = engine.repo.find_method(ci, attr)
+    if fi is not None and not st.ghost.get("no_virtual") and not fi.is_static and fi.fq not in engine.contracts:
+        # virtual dispatch inside the repository's own class hierarchies: the run-time class may be a subclass that
+        # overrides the member (a member under contract is used through its contract instead: behavioural subtyping)
+        overriding = []
+        for sub in engine.repo.subclasses(cname):
+            if sub is ci:
+                continue
+            fs = engine.repo.find_method(sub, attr)
+            if fs is not None and fs is not fi and fs.cls is not None and fs.cls is not fi.cls and sub.name not in [x.name for x in overriding]:
+                overriding.append(sub)
+        if overriding:
+            # most derived first
+            overriding.sort(key=lambda c: -len(engine.repo.mro(c)))
+            rest = st
+            for sub in overriding:
+                nxt = None
+                for st1, hit in engine.fork(rest, engine.instance_of(o.t, sub.name)):
+                    if hit:
+                        yield from load_obj_attr(engine, st1.with_ghost("no_virtual", True), sv_v(o.t, TObj(sub.name)), sub.name, attr, node)
+                    else:
+                        nxt = st1
+                if nxt is None:
+                    return
+                rest = nxt
+            st = rest.with_ghost("no_virtual", True)
+    if st.ghost.get("no_virtual"):
+        st = st.with_ghost("no_virtual", False)
     if fi is not None and fi.is_property:
         yield from engine.call_repo(fi, [o], {}, st, node)
         return
@@ -563,10 +597,30 @@ def load_obj_attr(engine, st, o, cname, attr, node):
 # ------------------------------------------------------------------------------------------------
 # subscripts
 # ------------------------------------------------------------------------------------------------
+def _known_nonneg(st, i):
+    """syntactic: the path condition contains 0 <= i (or i >= 0) for this very term"""
+    for h in st.pc[-12:]:
+        for c in (h.children() if z3.is_and(h) else [h]):
+            if z3.is_app(c) and c.num_args() == 2:
+                a, b = c.arg(0), c.arg(1)
+                k = c.decl().kind()
+                if k == z3.Z3_OP_LE and a.eq(z3.IntVal(0)) and b.eq(i):
+                    return True
+                if k == z3.Z3_OP_GE and a.eq(i) and b.eq(z3.IntVal(0)):
+                    return True
+    return False
+
+
 def _norm_index(engine, st, ln, idx):
     """python index normalisation: generator of (state, z3 Int index | Raised IndexError)"""
     i = engine.as_int(idx)
-    j = z3.If(i < 0, i + ln, i)
+    si = z3.simplify(i)
+    if z3.is_int_value(si):
+        j = si if si.as_long() >= 0 else z3.simplify(si + ln)
+    elif _known_nonneg(st, i):
+        j = i  # keeps the index term syntactically simple (it is an E-matching trigger in quantified clauses)
+    else:
+        j = z3.If(i < 0, i + ln, i)
     for st1, ok in engine.fork(st, And(0 <= j, j < ln)):
         yield (st1, z3.simplify(j)) if ok else (st1, Raised("IndexError", where="index"))
 
@@ -710,6 +764,8 @@ def to_set(engine, st, x):
     """set(x): generator (state, SV set | Raised)"""
     if x.kind == "set":
         yield st, x
+    elif x.kind == "list" and x.origin is not None and x.origin[0] == "set":
+        yield st, sv_set(x.origin[1], x.ty.elem if isinstance(x.ty, TList) else TAny)
     elif x.kind == "list":
         ln, arr = x.t
         y, i = S.fresh("y", V), S.fresh("i", S.Int)
@@ -746,7 +802,9 @@ def to_list(engine, st, x):
         n = S.fresh("n", S.Int)
         arr = any_order(s)
         pos = lambda v: any_order_pos(s, v)
-        yield st.with_facts(set_list_facts(s, n, arr, pos)), sv_list(n, arr, x.ty.elem if isinstance(x.ty, TSet) else TAny)
+        res = sv_list(n, arr, x.ty.elem if isinstance(x.ty, TSet) else TAny)
+        res.origin = ("set", s)  # an enumeration of exactly this set: set(list(S)) is S again
+        yield st.with_facts(set_list_facts(s, n, arr, pos)), res
     elif x.kind == "dict":
         yield from to_list(engine, st, sv_set(x.t[0], x.ty.k if isinstance(x.ty, TDict) else TAny))
     elif x.kind == "view" and "as_list" in x.t:
@@ -985,7 +1043,14 @@ def b_sorted(engine, st, args, kwargs, node):
             n = S.fresh("n", S.Int)
             arr = sorted_by(s.t, keymap)
             pos = lambda w: sorted_by_pos(s.t, keymap, w)
-            yield st2.with_facts(set_list_facts(s.t, n, arr, pos)), sv_list(n, arr, elem)
+            facts = set_list_facts(s.t, n, arr, pos)
+            i, j = S.fresh("si", S.Int), S.fresh("sj", S.Int)
+            if key is not None and kv.kind == "str":
+                # non-decreasing in the (string) key
+                facts.append(z3.ForAll([i, j], z3.Implies(And(0 <= i, i < j, j < n), V.sval(keymap[arr[i]]) <= V.sval(keymap[arr[j]]))))
+            res = sv_list(n, arr, elem)
+            res.origin = ("set", s.t)
+            yield st2.with_facts(facts), res
         else:
             ln, arr0 = s.t
             f = z3.Function("sorted_list", S.Int, S.SeqS, S.MapS, S.SeqS)
